@@ -91,8 +91,15 @@ def replay_scenario(ctx, scn, scheme, TaxonomyTree, get_taxonomy_tree, variants=
         if want_nodes != got_nodes:
             bad.append(('nodes_at_level', f'level {l}: {got_nodes} != {want_nodes}'))
         for n, lv in scn['leaves'][i]:
-            got = as_leaves[nm.level(l)][nm.node(l, n)]
-            g = sorted(nm.inv_node(leaf, x) for x in got)
+            got = as_leaves.get(nm.level(l), {}).get(nm.node(l, n))
+            if got is None:
+                bad.append(('as_leaves', f'({l},{n}): node missing from as_leaves'))
+                continue
+            try:
+                g = sorted(nm.inv_node(leaf, x) for x in got)
+            except KeyError:
+                bad.append(('as_leaves', f'({l},{n}): unknown leaf among {got}'))
+                continue
             if g != lv or len(got) != len(set(got)):
                 bad.append(('as_leaves', f'({l},{n}): {g} != {lv}'))
         for n, anc in scn['parents'][i]:
@@ -330,8 +337,15 @@ def run(ctx):
         nviol = 0
         for k, scn in enumerate(scns):
             for scheme in schemes:
-                bad = replay_scenario(ctx, scn, scheme, TaxonomyTree, get_taxonomy_tree,
-                                      variants=(scheme == 'structural' or not quick))
+                try:
+                    bad = replay_scenario(ctx, scn, scheme, TaxonomyTree, get_taxonomy_tree,
+                                          variants=(scheme == 'structural' or not quick))
+                except MachineryError:
+                    raise
+                except Exception:
+                    # a query of the real class raised where the spec has an answer
+                    import traceback
+                    bad = [('query-raised', traceback.format_exc()[-700:])]
                 nontriv = len(scn['tree']['hier']) > 1 or len(scn['tree']['nodes'][-1]) > 1
                 ctx.count({'tree': scn['tree'], 'scheme': scheme}, nontrivial=nontriv)
                 for sig, msg in bad[:3]:
